@@ -1,6 +1,7 @@
 import PfVerif.Driver.C01
 import PfVerif.Driver.C12
 import PfVerif.Driver.C20
+import PfVerif.Driver.BS
 namespace PfVerif.Driver
 open Lean
 
@@ -19,6 +20,8 @@ def dispatch (op : String) (j : Json) : R Json :=
   | "bilerp" => opBilerp j
   | "box_muller" => opBoxMuller j
   | "bisect" => opBisect j
+  | "bs" => opBs j
+  | "ww_full" => opWwFull j
   | _ => .error s!"unknown op {op}"
 
 end PfVerif.Driver
